@@ -236,6 +236,12 @@ def load_check(name, case, rec):
     rec.nontrivial = bool(max(abs(v) for v in case["ramp"]) >= 0.05 and mesh.ncells >= 2)
     other = [a for a in range(dim) if a != axis]
     A0 = float(np.prod(size[other])) if dim == 3 else float(size[other[0]])
+    # every fourth case: the boundaries live on a separate global field container handed over as x0 (multi-body workflow);
+    # after the job that container holds the solution
+    separate = case["jseed"] % 4 == 1
+    fcb = fc.copy() if separate else fc
+    if separate:
+        rec.label("separate-global-field-x0")
     if name.startswith("uniaxial"):
         sym = [True] * 3
         if not case["sym_axis"]:
@@ -244,14 +250,14 @@ def load_check(name, case, rec):
             # full model without symmetry planes: the left end face is held in the loading direction only, the remaining rigid
             # body modes are removed by pins on an edge (3-d) / a point (2-d) of that face, selected with mode="and"; the
             # pinned unknowns vanish in the homogeneous solution
-            bounds, lc = fem.dof.uniaxial(fc, clamped=False, move=0.0, axis=axis, sym=False)
+            bounds, lc = fem.dof.uniaxial(fcb, clamped=False, move=0.0, axis=axis, sym=False)
             for t in other:
                 skip = [1] * dim
                 skip[t] = 0
-                bounds[f"pin-{t}"] = fem.Boundary(fld, mode="and", skip=tuple(skip), **{"f" + "xyz"[axis]: 0.0, "f" + "xyz"[t]: 0.0})
+                bounds[f"pin-{t}"] = fem.Boundary(fcb[0], mode="and", skip=tuple(skip), **{"f" + "xyz"[axis]: 0.0, "f" + "xyz"[t]: 0.0})
             rec.label("full-model-with-pins(mode=and)")
         else:
-            bounds, lc = fem.dof.uniaxial(fc, clamped=False, move=0.0, axis=axis, sym=tuple(sym))
+            bounds, lc = fem.dof.uniaxial(fcb, clamped=False, move=0.0, axis=axis, sym=tuple(sym))
         track = bounds["move"]
         step = fem.Step([body], ramp={track: np.array(ramp)}, boundaries=bounds)
         mode = "uniaxial" if dim == 3 else "planestrain-uniaxial"
@@ -261,7 +267,7 @@ def load_check(name, case, rec):
         symb = [True] * 3
         if not case["sym_axis"]:
             symb[a2] = False  # the second axis is loaded on both end faces: left face by -move, right face by +move
-        bounds, lc = fem.dof.biaxial(fc, moves=(0.0, move2), axes=(axis, a2), clampes=(False, False), sym=tuple(symb))
+        bounds, lc = fem.dof.biaxial(fcb, moves=(0.0, move2), axes=(axis, a2), clampes=(False, False), sym=tuple(symb))
         track = bounds[f"move-right-{axis}"]
         step = fem.Step([body], ramp={track: np.array(ramp)}, boundaries=bounds)
         mode = "biaxial"
@@ -272,7 +278,7 @@ def load_check(name, case, rec):
         rec.label("curve-from-item-forces")
     job = fem.CharacteristicCurve([step], boundary=track, **jkw)
     try:
-        job.evaluate(tol=1e-10)
+        job.evaluate(tol=1e-10, **({"x0": fcb} if separate else {}))
     except ValueError:
         rec.reject("Newton did not converge for the generated ramp")
         return
@@ -303,7 +309,7 @@ def load_check(name, case, rec):
         worst_x = max(worst_x, abs(np.asarray(x)[axis] - v))
     rec.close("job.y=P*A0", worst_f, 1e-6, {"material": case["mat"]["name"], "mode": mode})
     rec.close("job.x=ramp", worst_x, 1e-14)
-    F = np.asarray(fc.extract()[0])
+    F = np.asarray(fcb.extract()[0])  # the container the boundaries live on (the global field if there is one)
     rec.close("F-uniform", float(np.abs(F - F[..., :1, :1]).max()), 1e-7)
     # final transverse stretch equals the analytic one
     l1 = 1 + ramp[-1] / L
